@@ -66,13 +66,85 @@ def history(rng, res, kinds_pool, crash_ok):
         m.close()
 
 
+def special_index_history(rng, res, kind):
+    """unique skip-list ('u') and hash ('h') indexes (catalog API only): distinct keys, inserts and deletes (no UPDATE on a hash
+    index: listed finding F-HASH-UPDATE), forced checkpoints, clean and crash restarts; at every quiescent point a point
+    lookup of every key ever used must return exactly the row ids of the rows holding it"""
+    from dbsession import DB
+    db = DB(mem_kb=rng.choice([400, 1200]))
+    fails = []
+    try:
+        if not db.open().startswith("ok"):
+            return [("open", "database does not start")]
+        db.cmd("mktable sp a:i:%s,b:i:n" % kind)
+        live, used = set(), []
+        nkeys = 45 if kind == "h" else 200
+        def check(what):
+            sc = db.cmd("scan sp")
+            heap = {}
+            if sc.startswith("ok:") and sc[3:]:
+                for e in sc[3:].split(";"):
+                    rid, row = e.split("=", 1)
+                    heap.setdefault(int(row.split(",")[0][2:]), []).append(rid)
+            if set(heap) != live:
+                fails.append(("# session:\n" + "\n".join(db.log[-80:]), "%s: table rows %s differ from the committed keys %s" % (what, sorted(heap)[:10], sorted(live)[:10])))
+                return
+            for k in used:
+                a = db.cmd("ixscan sp 0 i:%d" % k)
+                got = sorted(a[3:].split(";")) if a.startswith("ok:") and a[3:] else []
+                if not a.startswith("ok") or got != sorted(heap.get(k, [])):
+                    fails.append(("# session:\n" + "\n".join(db.log[-80:]), "%s: %s index lookup of key %d returns %s, the table holds it at %s" % (what, {"u": "unique skip-list", "h": "hash"}[kind], k, a[:80], heap.get(k, []))))
+                    return
+            res.extra["quiescent_points"] = res.extra.get("quiescent_points", 0) + 1
+        desc = []
+        for step in range(rng.randrange(6, 14)):
+            r = rng.random()
+            if r < 0.4:
+                for _ in range(rng.randrange(3, 15)):
+                    k = rng.randrange(nkeys)
+                    if k in live:
+                        continue
+                    db.sql("INSERT INTO sp(a,b) VALUES (%d, %d);" % (k, step))
+                    live.add(k); used.append(k) if k not in used else None
+                desc.append("inserts")
+            elif r < 0.65 and live:
+                for k in rng.sample(sorted(live), min(len(live), rng.randrange(1, 12))):
+                    # (a point predicate on a hash-indexed column is planned as an index RANGE scan, which the hash index
+                    #  does not implement: the OR form goes through the sequential scan)
+                    r2 = db.sql(("DELETE FROM sp WHERE a = %d OR a = %d;" % (k, k)) if kind == "h" else ("DELETE FROM sp WHERE b >= 0 AND a = %d;" % k))
+                    if not r2.startswith("ok"):
+                        fails.append(("# session:\n" + "\n".join(db.log[-80:]), "DELETE failed: " + r2)); break
+                    live.discard(k)
+                desc.append("deletes")
+            elif r < 0.75:
+                db.cmd("checkpoint"); desc.append("checkpoint")
+            else:
+                clean = rng.random() < 0.5
+                db.cmd("close" if clean else "crash", timeout=60)
+                if not clean and rng.random() < 0.5:
+                    db.restart_process()
+                if not db.open().startswith("ok"):
+                    fails.append(("# session:\n" + "\n".join(db.log[-80:]), "restart (%s) fails: %s" % ("clean" if clean else "crash", db.dead)))
+                    break
+                desc.append("restart(%s)" % ("clean" if clean else "crash"))
+            if db.dead:
+                fails.append(("# session:\n" + "\n".join(db.log[-80:]), "engine stopped answering: " + db.dead)); break
+            check("after " + desc[-1])
+            if fails:
+                break
+        res.note_case("special|%s|%s" % (kind, " ".join(desc)), any(d.startswith("restart") for d in desc))
+    finally:
+        db.destroy()
+    return fails
+
+
 def run(res, replay=None):
     res.rule = ("histories of 8-20 steps over 1-4 tables (SQL DDL: skip-list index on every column; catalog API: none / skip list / B-tree per column): inserts with many duplicate keys, "
                 "key-changing and growing (relocating) updates, deletes, explicit transactions that commit or abort, clean and crash restarts; at every third step and at the end "
                 "(no transaction open) the raw entries of every index are compared with the heap and index-path answers with scan-path answers and the reference; "
                 "non-trivial = distinct history containing an aborted transaction or a restart")
     res.trusted = COMMON_TRUSTED + ["python workload mirror (lib/workload.py)", "raw index entries are read through Index.GetRangeScanIterator(nil, nil)"]
-    res.assumptions = ["unique skip-list and hash indexes are covered by C17's container checks (duplicate keys are outside their contract / not reachable from SQL)",
+    res.assumptions = ["unique skip-list and hash indexes (catalog API only) are exercised with distinct keys, inserts, deletes, checkpoints and restarts (special_index_history); their containers are C17's subject",
                        "B-tree tables see clean restarts only (crash followed by clean restart is the listed finding F-BTREE-RESTART)"]
     go_ok = standard_build(res)
     if not go_ok:
@@ -82,6 +154,10 @@ def run(res, replay=None):
     import enginecorr
     enginecorr.run_corr(res, random.Random(res.seed * 7919 + 7), 100 if res.tier == "quick" else 1500, focus="index")
     c09.btree_probe(res)
+    for i in range(6 if res.tier == "quick" else 60):
+        for d, w in special_index_history(rng, res, "uh"[i % 2]):
+            if len(res.oracle_failures) < 5:
+                res.oracle_failures.append((d, w))
     n = 24 if res.tier == "quick" else 250
     for i in range(n):
         btree = (i % 3 == 0)
